@@ -364,7 +364,9 @@ def model_op(op, led, cur, res):
         dm, ref = _dedisp_args(op, cur)
         fc, bw, n, labels = _exact_band(cur)
         # band edges = the exact values of the public min_freq / max_freq attributes (their own law is C02's)
-        start, stop, unc, _ = dispersion.coherent_crop(F(float(dm.value)), hz(cur.min_freq), hz(cur.max_freq), hz(ref),
+        lab_ = cur.channel_freqs
+        lo_, hi_ = hz(lab_[0]) - hz(cur.chan_bw) / 2, hz(lab_[-1]) + hz(cur.chan_bw) / 2       # the band actually covered by the channels
+        start, stop, unc, _ = dispersion.coherent_crop(F(float(dm.value)), lo_, hi_, hz(ref),
                                                        hz(cur.sample_rate), L)
         if unc:
             return "band-edge delay within 1e-9 of an integer"
